@@ -284,6 +284,14 @@ def run(repo: Repo, tier: str) -> Report:
             return h == 1
         if g == f"not[{H}]":
             return h == 0
+        # compound tests (`h and z > 0`, `not (h and z > 0)`) are evaluated from their parts
+        for op in ("and", "or", "not"):
+            if g.startswith(op + "[") and g.endswith("]"):
+                from .smooth_common import split_args as _split
+                parts = [holds(p_, h, sg, H, Z) for p_ in _split(g)]
+                if None in parts:
+                    return None
+                return all(parts) if op == "and" else any(parts) if op == "or" else (not parts[0])
         for tag, val in (("gt0", sg == "+"), ("lt0", sg == "-"), ("ge0", sg in "+0"), ("le0", sg in "-0"), ("eq0", sg == "0"), ("ne0", sg != "0")):
             if g == f"{tag}[{Z}]":
                 return val
@@ -405,7 +413,8 @@ def run(repo: Repo, tier: str) -> Report:
     names = None
     for n in ast.walk(m):
         if isinstance(n, ast.Call) and ast.unparse(n.func) == "zip" and len(n.args) == 2:
-            names = const_list(n.args[1])
+            from ..rules import resolve_local
+            names = const_list(resolve_local(m, n.args[1]))      # a hoisted `names = [...]` is the same list
     rep.ob("R-BIND", AFILE, "PixelAlgorithms.mktrend", "outputs are named tau, pvalue, slope, trend in the kernel's order", names == ["tau", "pvalue", "slope", "trend"],
            f"names = {names}", "zip(x, [names])")
     # dispatch: the nodata-aware kernel is used whenever a nodata attribute exists (0 is a legitimate nodata value)
